@@ -315,8 +315,9 @@ def lenext(ctx):
     from .rules import lenext as le
     c = _sub()
     ne, nd = le.check(c, ["src/controls.c"])
-    ctx.control("R35.length-extension finds the control loops", (ne, nd) == (2, 2), "%d emit, %d read" % (ne, nd))
-    _expect(ctx, "R35.length-extension", c, ["lenext_bad", "lenext_read_bad"], ["lenext_good", "lenext_read_good"])
+    ctx.control("R35.length-extension finds the control loops and closed forms", (ne, nd) == (4, 3), "%d emit, %d read" % (ne, nd))
+    _expect(ctx, "R35.length-extension", c, ["lenext_bad", "lenext_read_bad", "lenext_closed_bad"],
+            ["lenext_good", "lenext_read_good", "lenext_closed_good", "lenext_read_break_good"])
 
 
 def sizekind(ctx):
